@@ -145,6 +145,13 @@ package transaction
 //@   bytes: key
 //@   ensures result == mutVal(recv, i)
 
+// (assumed: the list of keys an async commit has to check is a function of the committer)
+//@ spec func secsOf(c *twoPhaseCommitter) [][]byte
+//@ func (*twoPhaseCommitter) asyncSecondaries
+//@   trusted
+//@   modifies nothing
+//@   ensures result == secsOf(c)
+
 //@ func (*minCommitTsManager) get
 //@   prop C04
 //@   pure
@@ -159,7 +166,7 @@ package transaction
 //@   prop C04
 //@   bytes: key
 //@   requires c.startTS < 18446744073709551615 && c.forUpdateTS < 18446744073709551615 && (c.forUpdateTS == 0 || c.forUpdateTS >= c.startTS)
-//@   opaque-callee asyncSecondaries GetRequestSource Key
+//@   opaque-callee GetRequestSource Key
 //@   loop 1 invariant filled: 0 <= i && i <= mutLen(batch.mutations) && len(mutations) == mutLen(batch.mutations) && m == batch.mutations &&
 //@       forall j int :: 0 <= j && j < i ==> mutations[j] != nil && mutations[j].Op == mutOp(batch.mutations, j) && mutations[j].Key == mutKey(batch.mutations, j) && mutations[j].Value == mutVal(batch.mutations, j)
 //@   ensures wire: result != nil && result.Type == tikvrpc.CmdPrewrite && result.Req.(*kvrpcpb.PrewriteRequest).StartVersion == c.startTS &&
@@ -169,7 +176,8 @@ package transaction
 //@       result.Req.(*kvrpcpb.PrewriteRequest).MinCommitTs >= c.minCommitTSMgr.value
 //@   ensures ttl: result.Req.(*kvrpcpb.PrewriteRequest).LockTtl >= c.lockTTL
 //@   ensures flags: result.Req.(*kvrpcpb.PrewriteRequest).UseAsyncCommit == c.isAsyncCommit() && result.Req.(*kvrpcpb.PrewriteRequest).TryOnePc == c.isOnePC() &&
-//@       (!(c.isAsyncCommit() && batch.isPrimary) ==> len(result.Req.(*kvrpcpb.PrewriteRequest).Secondaries) == 0)
+//@       (!(c.isAsyncCommit() && batch.isPrimary) ==> len(result.Req.(*kvrpcpb.PrewriteRequest).Secondaries) == 0) &&
+//@       (c.isAsyncCommit() && batch.isPrimary ==> result.Req.(*kvrpcpb.PrewriteRequest).Secondaries == secsOf(c))
 //@   ensures all: len(result.Req.(*kvrpcpb.PrewriteRequest).Mutations) == mutLen(batch.mutations) && forall j int :: 0 <= j && j < mutLen(batch.mutations) ==>
 //@       result.Req.(*kvrpcpb.PrewriteRequest).Mutations[j] != nil && result.Req.(*kvrpcpb.PrewriteRequest).Mutations[j].Op == mutOp(batch.mutations, j) &&
 //@       result.Req.(*kvrpcpb.PrewriteRequest).Mutations[j].Key == mutKey(batch.mutations, j) && result.Req.(*kvrpcpb.PrewriteRequest).Mutations[j].Value == mutVal(batch.mutations, j)
@@ -204,3 +212,7 @@ package transaction
 //@   at call(primaryBatch) assert first: firstIsPrimary && ((actionIsCommit && !c.isAsyncCommit()) || actionIsCleanup || actionIsPessimisticLock)
 //@   at call(forgetPrimary) assert done: err == nil && firstIsPrimary
 //@   at call(allBatches#5) assert rest: (firstIsPrimary && ((actionIsCommit && !c.isAsyncCommit()) || actionIsCleanup || actionIsPessimisticLock)) ==> err == nil
+
+// Batching keeps track of the batch that holds the primary key: primaryIdx is only ever set to "none yet", to the index
+// the batch under construction is about to get (the current number of batches), or to the front after the swap.
+//@ field batched.primaryIdx transition C04: new == -1 || new == 0 || new == len(self.batches)
